@@ -77,10 +77,29 @@ class _ValWorld(World):
     return NotImplemented
 
   def compare(self, it, op, a, b, node):
+    # |y| != 1 / |y| == 1 element-wise
+    for x, y in ((a, b), (b, a)):
+      if tg(x) == 'absy' and y == 1 and isinstance(op, (ast.Eq, ast.NotEq)):
+        return S('ymask', isinstance(op, ast.NotEq))
+    return NotImplemented
+
+  def unary(self, it, op, v, node):
+    if isinstance(op, ast.Invert) and tg(v) == 'ymask':
+      return S('ymask', not v[1])
     return NotImplemented
 
   def call(self, it, d, recv, args, kwargs, node):
     sc = self.sc
+    if d in ('numpy.any', 'numpy.all') and len(args) == 1 and \
+            tg(args[0]) == 'ymask':
+      self.label_checks += 1
+      bad_mask = args[0][1]         # True: mask of the invalid entries
+      invalid = sc['y'] == 'invalid'
+      if d == 'numpy.any':
+        return invalid if bad_mask else True
+      return (not invalid) if not bad_mask else False
+    if d in ('.any', '.all') and tg(recv) == 'ymask':
+      return self.call(it, 'numpy' + d, None, [recv], {}, node)
     if d == 'isinstance' and len(args) == 2:
       if args[0] == S('estimator'):
         return False
@@ -149,6 +168,10 @@ class _ValWorld(World):
         raise Raised(['ValueError'], node)
       return S('arr', x[1], 'checked')
     if d.startswith('numpy.'):
+      if short == 'concatenate' and len(args) == 1 and \
+              isinstance(args[0], list) and kwargs.get('axis') == 1 and \
+              all(tg(c) == 'pts3' for c in args[0]):
+        short = 'column_stack'      # (n, 1, d) blocks joined along axis 1
       if short == 'column_stack' and len(args) == 1 and \
               isinstance(args[0], list):
         cols = args[0]
@@ -169,7 +192,7 @@ class _ValWorld(World):
         if args[0][1] == S('y') or args[1][1] == S('y'):
           pass
         return sc['y'] != 'invalid'
-      if short in ('all', 'any', 'isin', 'unique', 'setdiff1d', 'in1d'):
+      if short in ('isin', 'unique', 'setdiff1d', 'in1d'):
         raise Undecided('label test through numpy.%s' % short)
     return NotImplemented
 
